@@ -197,7 +197,7 @@ def strip_turbofish(c):
     i = 0
     n = len(c)
     while i < n:
-        if c.startswith("::<", i) and not c.startswith("::<impl ", i):
+        if c.startswith("::<", i):
             d = 0
             j = i + 2
             while j < n:
@@ -208,6 +208,11 @@ def strip_turbofish(c):
                     if d == 0:
                         break
                 j += 1
+            if c.startswith("::<impl ", i) and c.startswith("::", j + 1):
+                # a path segment `<impl Type>::method` (inherent impl), not generic arguments: keep it
+                out.append(c[i:j + 1])
+                i = j + 1
+                continue
             i = j + 1
         else:
             out.append(c[i])
